@@ -17,9 +17,20 @@ namespace rkcommon {
     void BufferWriter::write(const void *mem, size_t size)
     {
       const size_t bsize = buffer->size();
+
+      // NOTE: 'mem' may point into this writer's own buffer (which resize() may
+      //       reallocate): remember the offset instead of the address
+      const uint8_t *src = static_cast<const uint8_t *>(mem);
+      const uintptr_t first = reinterpret_cast<uintptr_t>(buffer->data());
+      const uintptr_t addr = reinterpret_cast<uintptr_t>(mem);
+      const bool ownBytes = mem && bsize > 0 && addr >= first && addr - first < bsize;
+      const size_t offset = ownBytes ? size_t(addr - first) : 0;
+
       buffer->resize(buffer->size() + size, 0);
-      if (mem && size > 0)
-        std::memcpy(buffer->begin() + bsize, mem, size);
+      if (ownBytes)
+        src = buffer->data() + offset;
+      if (src && size > 0)
+        std::memcpy(buffer->begin() + bsize, src, size);
     }
 
     BufferReader::BufferReader(
